@@ -6,6 +6,7 @@ mod extract;
 mod payload;
 mod sized;
 mod thin;
+mod uninit;
 mod trace;
 
 use serde_json::{json, Value};
@@ -88,6 +89,7 @@ fn replay(args: &[String]) {
         let errs = match family {
             "sized" => sized::replay_line(nslots, h, x),
             "thin" => thin::replay_line(nslots, h, x),
+            "uninit" => uninit::replay_line(nslots, h, x),
             _ => usage(),
         };
         n_replayed += 1;
